@@ -337,6 +337,22 @@ CONTRACTS = {
     },
 }
 
+# Runtime-only contract (bounded, never counted as proved): the job-level composition observed at `sequence_otel_job_id_streams`.
+# The nested lazy generators (and the rename step that mutates the spans between two of them) are outside the verifier's list
+# semantics; the clause ties the stream to the *proved* trace-level function: every connected trace gives exactly the job that
+# sequence_otel_event_job gives for that trace as renamed, in order; disconnected traces are skipped.
+RUNTIME_CONTRACTS = {
+    "sequence_otel_job_id_streams": {
+        "ensures": {
+            "one_job_per_connected_trace": "len(result) == len([g for g in job_id_streams if not stream_disconnected(g)])",
+            "jobs_follow_trace_contract": "all(result[k] == reference_job([g for g in job_id_streams if not stream_disconnected(g)][k], async_flag, "
+                                          "event_to_async_group_map) for k in range(len(result)))",
+            "renamed_by_rule": "all(e.event_type == renamed_type(e, g, old(type_map(job_id_streams)), event_types_map_information) "
+                               "for g in job_id_streams if not stream_disconnected(g) for e in g)",
+        },
+    },
+}
+
 LEMMA_MAXEND_UPPER = {
     "name": "maxend_upper",
     "forall": {"g": "list[OTelEvent]", "j": "int"},
@@ -459,7 +475,27 @@ def native_env(nat):
 
     def pv_starts(job):
         return sum(1 for p in job if not p["previousEventIds"])
-    return {"count": count, "perm": perm, "size": size, "links_undef": links_undef, "pv_acyclic": pv_acyclic,
+
+    def stream_disconnected(g):
+        ids = {e.event_id for e in g}
+        return any(e.parent_event_id is not None and e.parent_event_id not in ids for e in g)
+
+    def reference_job(g, async_flag, gmap):
+        """the job the (proved) trace-level function gives for this trace in its present (renamed) state"""
+        so = nat.real("sequence_otel_event_job")
+        return list(so({e.event_id: e for e in g}, async_flag, gmap))
+
+    def type_map(streams):
+        return {e.event_id: e.event_type for g in streams for e in g}
+
+    def renamed_type(e, g, old, tmap):
+        by_id = {x.event_id: x for x in g}
+        t = old[e.event_id]
+        if not tmap or t not in tmap or e.child_event_ids is None:
+            return t
+        kids = {old[c] for c in e.child_event_ids if c in by_id}
+        return tmap[t].mapped_event_type if kids & set(tmap[t].child_event_types) else t
+    return {"stream_disconnected": stream_disconnected, "reference_job": reference_job, "type_map": type_map, "renamed_type": renamed_type,"count": count, "perm": perm, "size": size, "links_undef": links_undef, "pv_acyclic": pv_acyclic,
             "pv_after_descendants": pv_after_descendants, "pv_starts": pv_starts}
 
 
@@ -729,7 +765,47 @@ def _small_ancestors(nat):
                "event_to_async_group_map": case["event_to_async_group_map"]}
 
 
+def _gen_streams(nat, rng, n):
+    """1-3 traces (random trees <= 5 spans, one of them sometimes with a missing parent) + rename rules + prior information that
+    mentions the *renamed* types (as parent key and as grouped child type)"""
+    _, OTelEventTypeMap = _types(nat)
+    shapes = list(trees(nat, 5))
+    for _ in range(n):
+        streams = []
+        for ti in range(rng.randrange(1, 4)):
+            k, par, kids = rng.choice(shapes)
+            starts = rng.sample(range(3 * k + 3), k)
+            times = [(s_, s_ + rng.randrange(0, 6)) for s_ in starts]
+            types = [rng.choice("ABCD") for _ in range(k)]
+            job = _job_from(nat, k, par, kids, times, types)
+            evs = []
+            for i in range(k):
+                e = job[f"s{i}"]
+                evs.append(mk_event(nat, f"t{ti}.{e.event_id}", e.start_timestamp, e.end_timestamp, etype=e.event_type,
+                                    parent=None if e.parent_event_id is None else f"t{ti}.{e.parent_event_id}",
+                                    children=[f"t{ti}.{c}" for c in e.child_event_ids], job=f"t{ti}"))
+            if rng.random() < 0.15 and k > 1:
+                evs[-1].parent_event_id = "missing"
+            rng.shuffle(evs)
+            streams.append(evs)
+        infos = None
+        if rng.random() < 0.75:
+            infos = {}
+            if rng.random() < 0.9:
+                infos["A"] = OTelEventTypeMap(mapped_event_type="MA", child_event_types={"B"} if rng.random() < 0.6 else {"B", "C"})
+            if rng.random() < 0.5:
+                infos["D"] = OTelEventTypeMap(mapped_event_type="MD", child_event_types={"C"})
+        gmap = None
+        if rng.random() < 0.7:
+            gmap = {p: {u: rng.choice(["g1", "g2"]) for u in ["A", "MA", "B", "C", "D", "MD"] if rng.random() < 0.5}
+                    for p in ["A", "MA", "B", "C", "D", "MD"] if rng.random() < 0.6}
+        yield {"job_id_streams": streams, "async_flag": rng.random() < 0.4, "event_to_async_group_map": gmap, "event_types_map_information": infos}
+
+
+NATIVE_CALL = {"sequence_otel_job_id_streams": lambda nat, a: [list(g) for g in nat.real("sequence_otel_job_id_streams")(**a)]}
+
 GEN = {
+    "sequence_otel_job_id_streams": _gen_streams,
     "order_groups_by_start_timestamp": lambda nat, rng, n: ({"groups": _rand_groups(nat, rng, True)} for _ in range(n)),
     "sequence_groups_of_otel_events_asynchronously": lambda nat, rng, n: ({"groups": _rand_groups(nat, rng)} for _ in range(n)),
     "group_events_using_async_information": _gen_group_events,
